@@ -774,8 +774,8 @@ func (a *Agent) gatherCandidatesSrflxMapped(ctx context.Context, networkTypes []
 					}
 				}
 
-				if shouldFilterLocationTracked(mappedIP) {
-					closeConnAndLog(currentConn, a.log, "external IP is somehow filtered for location tracking reasons %s", mappedIP)
+				if !a.publishableGatheredAddress(network, mappedIP) {
+					closeConnAndLog(currentConn, a.log, "external IP %s is not usable with the enabled network types", mappedIP)
 
 					continue
 				}
